@@ -50,7 +50,7 @@ ANCHORS = ['pfhedge.nn.functional:leaky_clamp',
            'pfhedge.nn.modules.svi:SVIVariance.forward']
 DECIDING = ["clamp.piecewise", "leaky_clamp.piecewise", "Clamp.module", "LeakyClamp.module", "ww.band", "ww.zero_cost_is_delta",
             "svi.formula", "bilerp.formula", "box_muller.formula", "realized_volatility.sqrt"]
-REQUIRED_BRANCHES = ["ww.cost_changed_after_construction", "clamp.inverted.mean", "clamp.inverted.max", "leaky.inverted.max", "ww.inside_band", "ww.outside_band",
+REQUIRED_BRANCHES = ["svi.sigma_zero_or_negative", "ww.cost_changed_after_construction", "clamp.inverted.mean", "clamp.inverted.max", "leaky.inverted.max", "ww.inside_band", "ww.outside_band",
                      "module.inverted.max"]
 
 
@@ -284,15 +284,20 @@ def drv_helpers(ctx, k, rng):
     mon = "svi.formula"
     ctx.seen(mon)
     a, b, rho, m_, sg = (float(rng.uniform(0.0, 0.1)), float(rng.uniform(0.05, 0.5)), float(rng.uniform(-0.9, 0.9)),
-                         float(rng.uniform(-0.3, 0.3)), float(pick(rng, [0.05, 0.3, 1.0, 2.5])))
+                         float(rng.uniform(-0.3, 0.3)), float(pick(rng, [0.05, 0.3, 1.0, 2.5, 0.0, -0.3, 1e-30, -2.5])))
+    # "all SVI parameters": the documented formula is even in sigma and defined at sigma = 0 (where it is the piecewise-linear limit)
+    if sg <= 1e-20:
+        ctx.branch("svi.sigma_zero_or_negative")
     kk = t(rng.uniform(-1, 1, n), dtype)
+    if sg == 0.0:
+        kk[0] = m_  # the kink itself: k - m = 0 up to the rounding of m into the dtype
     via = pick(rng, ["fn", "module"])
     got = F.svi_variance(kk, a, b, rho, m_, sg) if via == "fn" else SVIVariance(a, b, rho, m_, sg)(kk)
     ok = True
     for i in range(n):
-        km = mpmath.mpf(float(kk[i])) - mpmath.mpf(m_)
+        km = mpmath.mpf(float(kk[i])) - mpmath.mpf(float(torch.tensor(m_, dtype=dtype)))  # tensor - python float: the scalar is taken in the tensor's dtype
         want = a + b * (rho * km + mpmath.sqrt(km * km + mpmath.mpf(sg) ** 2))
-        if abs(mpmath.mpf(float(got[i])) - want) > rel * (abs(want) + abs(a) + b * (abs(km) + sg)) * 8:
+        if not abs(mpmath.mpf(float(got[i])) - want) <= rel * (abs(want) + abs(a) + b * (abs(km) + abs(sg))) * 8:
             ok = False
             break
     ctx.check(mon, ok, "svi", "svi_variance != a + b (rho (k-m) + sqrt((k-m)^2 + sigma^2))", sig=(str(dtype), via, sg > 1),
